@@ -221,6 +221,10 @@ struct Ent17 { int id; bool has_tags; std::vector<int> tags; };
 struct Op17 { int kind; int n1 = 0, n2 = 0; int id = -1; int tag = 0; uint32_t mask = 0; bool rbool = false; int rid = -1; std::vector<int> rids; std::map<int, Ent17> observed; };
 using Model17 = std::map<int, Ent17>;   // name index -> entry
 
+// Names whose tag set is not determined by the property: addType on a name that is not stored leaves tags behind that a later
+// addObject / copyObject of that name may or may not pick up.  The set is computed per case from the program text (closed under
+// copyObject), and every tag question about such a name accepts either answer; objects, names and memory safety stay exact.
+uint32_t g_taint17 = 0;
 std::string key17(const Model17& m) {
     std::string s;
     for (auto& kv : m) { s += std::to_string(kv.first) + ":" + std::to_string(kv.second.id) + (kv.second.has_tags ? "t" : "n"); for (int t : kv.second.tags) s += std::to_string(t); s += ";"; }
@@ -229,6 +233,7 @@ std::string key17(const Model17& m) {
 // successors of `m` under `op` whose result matches the recorded one
 void step17(const Model17& m, const Op17& op, std::vector<Model17>& outv) {
     auto has_tag = [](const Ent17& e, int t) { return e.has_tags && std::find(e.tags.begin(), e.tags.end(), t) != e.tags.end(); };
+    auto tainted = [](int name) { return ((g_taint17 >> name) & 1) != 0; };
     switch (op.kind) {
         case S_ADD: case S_ADDT: {
             bool absent = !m.count(op.n1);
@@ -237,7 +242,7 @@ void step17(const Model17& m, const Op17& op, std::vector<Model17>& outv) {
             if (absent) m2[op.n1] = Ent17{op.id, op.kind == S_ADDT, op.kind == S_ADDT ? std::vector<int>{op.tag} : std::vector<int>{}};
             outv.push_back(std::move(m2)); return;
         }
-        case S_ADDTYPE: { Model17 m2 = m; auto it = m2.find(op.n1); if (it == m2.end()) return; it->second.has_tags = true; it->second.tags.push_back(op.tag); outv.push_back(std::move(m2)); return; }
+        case S_ADDTYPE: { Model17 m2 = m; auto it = m2.find(op.n1); if (it == m2.end()) { outv.push_back(std::move(m2)); return; } it->second.has_tags = true; it->second.tags.push_back(op.tag); outv.push_back(std::move(m2)); return; }
         case S_COPY: {
             bool ok = m.count(op.n1) && !m.count(op.n2);
             if (ok != op.rbool) return;
@@ -260,11 +265,15 @@ void step17(const Model17& m, const Op17& op, std::vector<Model17>& outv) {
         }
         case S_FINDPT: {
             bool any = false, match = false;
-            for (auto& kv : m) if (((op.mask >> kv.second.id) & 1) && has_tag(kv.second, op.tag)) { any = true; if (kv.second.id == op.rid) match = true; }
+            for (auto& kv : m) if ((op.mask >> kv.second.id) & 1) {
+                bool yes = has_tag(kv.second, op.tag), unknown = tainted(kv.first);
+                if (yes && !unknown) any = true;                                   // a definite match exists: null is not an acceptable answer
+                if ((yes || unknown) && kv.second.id == op.rid) match = true;
+            }
             if ((op.rid < 0 && !any) || match) outv.push_back(m);
             return;
         }
-        case S_CHECKTYPE: { auto it = m.find(op.n1); bool exp = it != m.end() && has_tag(it->second, op.tag); if (exp == op.rbool) outv.push_back(m); return; }
+        case S_CHECKTYPE: { auto it = m.find(op.n1); bool exp = it != m.end() && has_tag(it->second, op.tag); if (exp == op.rbool || tainted(op.n1)) outv.push_back(m); return; }
         case S_GETOBJS: { std::vector<int> ids; for (auto& kv : m) ids.push_back(kv.second.id); std::sort(ids.begin(), ids.end()); if (ids == op.rids) outv.push_back(m); return; }
         case S_EMPTY: { if (m.empty() == op.rbool) outv.push_back(m); return; }
         case S_FINAL: {
@@ -273,7 +282,7 @@ void step17(const Model17& m, const Op17& op, std::vector<Model17>& outv) {
             for (auto& kv : m) {
                 auto it = op.observed.find(kv.first);
                 if (it == op.observed.end() || it->second.id != kv.second.id) return;
-                for (int t = 0; t < 3; ++t) if (has_tag(kv.second, t) != has_tag(it->second, t)) return;
+                if (!tainted(kv.first)) for (int t = 0; t < 3; ++t) if (has_tag(kv.second, t) != has_tag(it->second, t)) return;
             }
             outv.push_back(m); return;
         }
@@ -310,6 +319,12 @@ vh::Outcome run_c17(const vh::Case& c, bool concurrent) {
     bool lbl_removep = false, lbl_overlap = false, lbl_copy = false, lbl_kept_after_remove = false;
     int in_flight = 0;
     bool faults = c.sched.fault_k != 0;
+    // tag-indeterminate names of this program (see g_taint17)
+    auto decode_n1 = [](const vh::Op& o) { int k = o.code % S_NK; if (k == S_ADDTYPE) return ((o.b & 12) == 4) ? o.a % 4 : 4 + (o.a & 1); if (k == S_COPY && (o.b & 4)) return 4 + (o.a & 1); return o.a % 4; };
+    g_taint17 = 0;
+    for (auto& f : c.fibers) for (auto& o : f) if (o.code % S_NK == S_ADDTYPE && decode_n1(o) < 4) g_taint17 |= 1u << decode_n1(o);
+    for (int round = 0; round < 4; ++round) for (auto& f : c.fibers) for (auto& o : f) if (o.code % S_NK == S_COPY && ((g_taint17 >> decode_n1(o)) & 1)) g_taint17 |= 1u << ((o.a / 4) % 4);
+    bool lbl_orphan_type = g_taint17 != 0;
     out.res = vrt::run(c.sched, [&] {
         std::vector<std::shared_ptr<Obj17>> returned;   // objects handed to callers: must stay alive
         {
@@ -327,7 +342,7 @@ vh::Outcome run_c17(const vh::Case& c, bool concurrent) {
                     op.n1 = o.a % 4; op.n2 = (o.a / 4) % 4; op.tag = o.b % 3;
                     // predicates never match the reserved objects (ids 0,1); masks: by id, always (non-reserved), never
                     { int sel = o.b % 5; op.mask = sel == 0 ? 0u : sel <= 2 ? 0xfffffffcu : (1u << (2 + (o.a + o.b) % 12)) | (1u << (2 + o.a % 12)) | (sel == 4 ? (1u << (2 + (o.b / 5) % 12)) : 0u); }
-                    if (op.kind == S_ADDTYPE) op.n1 = 4 + (o.a & 1);
+                    if (op.kind == S_ADDTYPE) op.n1 = decode_n1(o);                      // a reserved name, or (b&4) an ordinary name that may not be stored at that moment
                     if (op.kind == S_CHECKTYPE && (o.b & 4)) op.n1 = 4 + (o.a & 1);
                     if (op.kind == S_FIND && (o.b & 4)) op.n1 = 4 + (o.a & 1);
                     if (op.kind == S_COPY && (o.b & 4)) op.n1 = 4 + (o.a & 1);        // copy a reserved (possibly tagged) entry to an ordinary name
@@ -396,6 +411,7 @@ vh::Outcome run_c17(const vh::Case& c, bool concurrent) {
     });
     if (lbl_removep) out.labels.push_back("removed-by-predicate");
     if (lbl_copy) out.labels.push_back("copyObject");
+    if (lbl_orphan_type) out.labels.push_back("addType-on-ordinary-name");
     if (lbl_overlap) out.labels.push_back("calls-overlapped");
     if (hist.size() > 20 && concurrent) out.labels.push_back("history-too-long-for-search");
     if (out.res.faults_fired) out.labels.push_back("fault-fired");
